@@ -35,6 +35,9 @@ type Store struct {
 	FailAt int
 	Fired  string // which call failed ("" if none)
 	Log    []string
+	// Eager makes Get capture the record's data at Get time (a record then is a snapshot of that instant)
+	// instead of loading it lazily on the first Data() call.
+	Eager bool
 }
 
 // New returns an empty store.
@@ -75,6 +78,9 @@ func (s *Store) Get(ctx context.Context, p string) (keyvalue.FileRecord, error) 
 			}
 			return s.childrenLocked(p), nil
 		}
+	} else if s.Eager {
+		snapshot := append([]byte(nil), r.Data...)
+		getData = func() (blob.Blob, error) { return blob.NewBytes(append([]byte(nil), snapshot...)), nil }
 	} else {
 		getData = func() (blob.Blob, error) {
 			s.mu.Lock()
